@@ -454,6 +454,7 @@ def coverage(col, facts):
 
 
 BOUNDED_NEXT = ('core::iter::range::<impl core::iter::traits::iterator::Iterator for core::ops::range::Range<A>>::next',
+                'core::iter::range::<impl core::iter::traits::iterator::Iterator for core::ops::range::RangeInclusive<A>>::next',
                 '<heapless::vec::IntoIter<T, N> as core::iter::traits::iterator::Iterator>::next',
                 "<core::slice::iter::Iter<'a, T> as core::iter::traits::iterator::Iterator>::next")
 
